@@ -177,8 +177,8 @@ func funcKey(d *ast.FuncDecl) string {
 	return d.Name.Name
 }
 
-// rootIdent strips element / field / deref / paren layers: G[k].f → G ; returns also whether an index layer was crossed.
-func rootIdent(e ast.Expr) (id *ast.Ident, sel *ast.SelectorExpr, indexed bool, layers int) {
+// c19RootIdent strips element / field / deref / paren layers: G[k].f → G ; returns also whether an index layer was crossed.
+func c19RootIdent(e ast.Expr) (id *ast.Ident, sel *ast.SelectorExpr, indexed bool, layers int) {
 	for {
 		switch x := e.(type) {
 		case *ast.IndexExpr:
@@ -224,7 +224,7 @@ func genGlobals() (string, string) {
 	}
 	// resolve an expression root to (pkgdir, var) if it names a package-level variable
 	globalOf := func(pk *gPkg, f *ast.File, lhs ast.Expr) (string, string, bool, int) {
-		id, sel, indexed, layers := rootIdent(lhs)
+		id, sel, indexed, layers := c19RootIdent(lhs)
 		if id == nil {
 			return "", "", false, 0
 		}
@@ -347,7 +347,7 @@ func genGlobals() (string, string) {
 						}
 						writes = append(writes, gWrite{pkg: dir, name: name, writer: writer, kind: k, inInit: isInit, guarded: guardedAt(pos)})
 					}
-					if id, sel, indexed, _ := rootIdent(lhs); id != nil && sel == nil && id.Obj != nil && indexed {
+					if id, sel, indexed, _ := c19RootIdent(lhs); id != nil && sel == nil && id.Obj != nil && indexed {
 						if pn, ok := cparams[id.Obj]; ok {
 							callerWrites = append(callerWrites, gCallerWrite{writer, pn, src(lhs)})
 						}
@@ -386,7 +386,7 @@ func genGlobals() (string, string) {
 								if dir, name, _, _ := globalOf(pk, f, x.Args[0]); name != "" {
 									writes = append(writes, gWrite{pkg: dir, name: name, writer: writer, kind: id.Name, inInit: isInit, guarded: guardedAt(x.Pos())})
 								}
-								if rid, sel, _, _ := rootIdent(x.Args[0]); rid != nil && sel == nil && rid.Obj != nil && id.Name != "copy" {
+								if rid, sel, _, _ := c19RootIdent(x.Args[0]); rid != nil && sel == nil && rid.Obj != nil && id.Name != "copy" {
 									if pn, ok := cparams[rid.Obj]; ok {
 										callerWrites = append(callerWrites, gCallerWrite{writer, pn, src(x)})
 									}
